@@ -186,6 +186,10 @@ class Sim:
         self.proxy = bool(case.get("proxy")) and self.role == "client"
         self.px_sent = 0            # answer to CONNECT: 0 nothing, 1 first part, 2 complete
         self.px_head_done = not self.proxy
+        self.stream_left = 0        # octets still missing in the frame the application is streaming out (0: not inside a frame)
+        self.stream_msg = False     # a streamed message has been begun and not ended
+        self.stream_spans = []      # [start, end|None] periods during which the application was inside a streamed frame
+        self.closes_again = 0       # close frames the peer sent after its first one
         self.close_cause = None     # what made US send the initiating close frame: 'api' | 'onopen' | 'fail:<action>' 
         self.our_close_at = None
         self.peer_close_at = None
@@ -347,6 +351,8 @@ class Sim:
             R.seen("failclose_kinds", "%s/%s" % (self.role, self.close_cause))
         if k == "open" and self.proxy:
             R.count("deadline_evaluated_open_proxy_%s" % ("pending" if self.px_sent != 2 else "answered"))
+        if k == "drop" and self.closes_again:
+            R.count("deadline_evaluated_drop_after_repeated_close")
 
     def push(self, t, kind, before=False):
         self.seq += 1
@@ -374,8 +380,40 @@ class Sim:
         if kind == "lost":                     # delayed delivery of our own close request
             self.deliver_lost()
             return
+        if kind in ("st_begin", "st_data", "st_end", "st_frame"):
+            # frame STREAMING API: beginMessage / beginMessageFrame / sendMessageFrameData ... endMessage.  The octets the
+            # application streams are taken off the transport here (they are not library-framed writes); everything the
+            # library writes on its own (auto-pings, close frames) is a complete frame per write and is parsed as before.
+            if self.lost or self.phase != "open" or self.dropped_at is not None:
+                return
+            p = self.proto
+            if kind in ("st_begin", "st_frame") and self.stream_left == 0:
+                if not self.stream_msg:
+                    p.beginMessage(isBinary=True)
+                    self.stream_msg = True
+                p.beginMessageFrame(64)
+                self.stream_left = 64
+                self.stream_spans.append([now, None])
+                self.R.count("streamed_frames_begun")
+            if kind == "st_data" and self.stream_left:
+                n = min(16, self.stream_left - 1)          # never completes the frame: st_end / st_frame do
+                if n > 0:
+                    p.sendMessageFrameData(b"s" * n)
+                    self.stream_left -= n
+            if kind in ("st_end", "st_frame") and (self.stream_left or self.stream_msg):
+                if self.stream_left:
+                    p.sendMessageFrameData(b"e" * self.stream_left)
+                    self.stream_left = 0
+                    self.stream_spans[-1][1] = now
+                if kind == "st_end":
+                    p.endMessage()
+                    self.stream_msg = False
+            self.stream_taken = getattr(self, "stream_taken", 0) + len(ep.take_output())
+            return
         if kind == "api_send":
             # the application queues data (it is what sits in the write buffer when the peer stops reading)
+            if self.stream_msg:
+                return          # sendMessage() inside a streamed message is an API misuse
             if not self.lost and self.phase == "open" and self.dropped_at is None:
                 for _ in range(6):       # small messages: maxMessagePayloadSize (64 in some cases) also limits what we may send
                     self.proto.sendMessage(b"queued-data-" * 4, isBinary=True)
@@ -449,8 +487,21 @@ class Sim:
                     self.live["drop"] = Deadline("drop", now + self.SCDT, now, origin="we-initiated")
             ep.feed(self.frame(ref.OP_CLOSE, ref.close_payload(1000, "peer bye")))
             return
+        if kind in ("close_again", "data_again", "ping_again"):
+            # a peer that keeps talking after its close frame (the deadlines armed so far are NOT re-armed by that)
+            if self.peer_close_at is None:
+                return
+            if kind == "close_again":
+                self.closes_again += 1
+                self.R.count("close_frames_after_peer_close")
+                ep.feed(self.frame(ref.OP_CLOSE, ref.close_payload(1000, "peer bye again")))
+            elif kind == "data_again":
+                ep.feed(self.frame(ref.OP_TEXT, b"late"))
+            else:
+                ep.feed(self.frame(ref.OP_PING, b"late-ping"))
+            return
         if self.peer_close_at is not None:
-            return          # nothing but silence after the peer's close frame
+            return          # nothing but silence after the peer's close frame (apart from the *_again actions)
         if kind == "pong":
             pl = self.pending_ping[1] if self.pending_ping else b""
             if self.pending_ping:
@@ -542,6 +593,18 @@ class Sim:
             self.ping_due = (r, r + self.I - 1.0, r + self.I)
             self.ping_overdue_reported = False
 
+    def ping_hi(self, lo, hi):
+        """Latest instant for the next auto-ping: ``hi``, unless the application was inside a streamed frame at some
+        instant of (lo, hi] - then the ping may be postponed until one interval after that frame was finished."""
+        over = False
+        for st, en in self.stream_spans:
+            if st <= hi + EPS and (en is None or en > lo + EPS):
+                over = True
+                if en is None:
+                    return float("inf"), True
+                hi = max(hi, en + self.I)
+        return hi, over
+
     def on_ping_written(self, t, payload):
         R = self.R
         self.pings.append((t, payload))
@@ -551,7 +614,12 @@ class Sim:
             raise AbortCase()
         if self.ping_due is not None:
             refi, lo, hi = self.ping_due
+            hi, over = self.ping_hi(lo, hi)
             R.count("ping_intervals_measured")
+            if over:
+                R.count("ping_intervals_measured_streaming")
+            if self.stream_left:
+                R.count("pings_written_mid_frame")
             self.fired.add("ping-interval")
             if t > hi + EPS:
                 if not self.ping_overdue_reported:
@@ -737,9 +805,12 @@ class Sim:
                               "(peer silent)" % (k, self.rel(dl.armed), self.rel(dl.D)))
             if self.ping_due is not None and self.phase == "open" and not self.ping_overdue_reported:
                 refi, lo, hi = self.ping_due
+                hi, over = self.ping_hi(lo, hi)
                 if now > hi + EPS:
                     self.ping_overdue_reported = True
                     R.count("ping_intervals_measured")
+                    if over:
+                        R.count("ping_intervals_measured_streaming")
                     self.fired.add("ping-interval")
                     self.viol("auto-ping-missing", "connection OPEN, reference instant %s, autoPingInterval %s: no auto-ping "
                               "on the wire by %s" % (self.rel(refi), self.I, self.rel(hi)))
